@@ -1,3 +1,279 @@
+(* Property C15 - reshaping and item restructuring are pure relabelings.
+   Only statements, closed by [exact], with Print Assumptions.
+   U = unbounded (every rank, axis length, item shape, mask, derivative set);
+   B = bounded-exhaustive inside Coq, bound in the statement. *)
 From Coq Require Import List ZArith Bool.
 From PM Require Import Base Mask C15Model C15Lemmas.
 Import ListNotations.
+
+(* U: every leading-axis operation (reshape flatten swap_axes roll_axis move_axis broadcast_to)
+   either rejects its arguments or applies ONE index map m to values, mask and every
+   derivative; the class is kept *)
+Theorem C15_lead_one_map : forall o q sg, lead_sigma o (qlead (qcore q)) = Some sg ->
+  match sg with
+  | None => run_op o q = RErr
+  | Some m =>
+      exists q', run_op o q = ROk [q'] /\ qcls q' = qcls q /\
+                 qcore q' = lead_map m (qcore q) /\
+                 qders q' = if op_rec o
+                            then map (fun kd => (fst kd, lead_map m (snd kd))) (qders q) else []
+  end.
+Proof. exact lead_relabel. Qed.
+
+(* U: what applying m means: result element (r ++ j) is source element (m r ++ j); the item
+   part j and the item shapes are untouched; the mask uses the same m *)
+Theorem C15_lead_relabel : forall m a,
+  qlead (lead_map m a) = im_out m /\ qnumer (lead_map m a) = qnumer a /\
+  qdenom (lead_map m a) = qdenom a /\
+  (forall r j, length r = length (im_out m) ->
+               qval (lead_map m a) (r ++ j) = qval a (im_src m r ++ j)) /\
+  (forall r, qmask (lead_map m a) r = qmask a (im_src m r)).
+Proof. exact lead_map_relabels. Qed.
+
+(* U: dual statements for numerator-axis operations (extract_numer slice_numer transpose_numer
+   reshape_numer flatten_numer as_row as_column to_scalar swapxy) *)
+Theorem C15_numer_one_map : forall o q sg, numer_sigma o (qnumer (qcore q)) = Some sg ->
+  match sg with
+  | None => run_op o q = RErr
+  | Some m =>
+      exists q', run_op o q = ROk [q'] /\
+                 qcore q' = numer_map m (qcore q) /\
+                 qders q' = if op_rec o
+                            then map (fun kd => (fst kd, numer_map m (snd kd))) (qders q) else []
+  end.
+Proof. exact numer_relabel. Qed.
+Theorem C15_numer_relabel : forall m a,
+  qlead (numer_map m a) = qlead a /\ qnumer (numer_map m a) = im_out m /\
+  qdenom (numer_map m a) = qdenom a /\
+  (forall r n d, length r = length (qlead a) -> length n = length (im_out m) ->
+                 qval (numer_map m a) (r ++ n ++ d) = qval a (r ++ im_src m n ++ d)) /\
+  (forall r, qmask (numer_map m a) r = qmask a r).
+Proof. exact numer_map_relabels. Qed.
+Theorem C15_denom_relabel : forall m a,
+  qlead (denom_map m a) = qlead a /\ qnumer (denom_map m a) = qnumer a /\
+  qdenom (denom_map m a) = im_out m /\
+  (forall r n d, length r = length (qlead a) -> length n = length (qnumer a) ->
+                 qval (denom_map m a) (r ++ n ++ d) = qval a (r ++ n ++ im_src m d)) /\
+  (forall r, qmask (denom_map m a) r = qmask a r).
+Proof. exact denom_map_relabels. Qed.
+(* U: denominator operations and join/split/swap_items never touch leading axes or mask *)
+Theorem C15_item_ops_keep_lead : forall o q q',
+  match o with
+  | OExtractDenom _ _ _ | OTransposeDenom _ _ | OReshapeDenom _ | OFlattenDenom
+  | OJoinItems _ | OSplitItems _ _ | OSwapItems _ => True
+  | _ => False
+  end ->
+  run_op o q = ROk [q'] ->
+  qlead (qcore q') = qlead (qcore q) /\ (forall r, qmask (qcore q') r = qmask (qcore q) r) /\
+  qders q' = [].
+Proof. exact denom_ops_keep_lead. Qed.
+Theorem C15_swap_items_relabel : forall a r n d,
+  length r = length (qlead a) -> length d = length (qdenom a) ->
+  qval (swap_items_map a) (r ++ d ++ n) = qval a (r ++ n ++ d).
+Proof. exact swap_items_relabel. Qed.
+
+(* U: nothing lost, nothing duplicated: the index maps of swapaxes / rollaxis / moveaxis (any
+   tuple of axes) / reshape (any legal target incl. an unknown entry and ()) are bijections
+   between the index set of the result and the index set of the source *)
+Theorem C15_swapaxes_bijective : forall a b s m, np_swapaxes a b s = Some m -> bijective_on m s.
+Proof. exact swapaxes_bijection. Qed.
+Theorem C15_rollaxis_bijective : forall a st s m, np_rollaxis a st s = Some m -> bijective_on m s.
+Proof. exact rollaxis_bijection. Qed.
+Theorem C15_moveaxis_bijective : forall src dst s m, np_moveaxis src dst s = Some m -> bijective_on m s.
+Proof. exact moveaxis_bijection. Qed.
+Theorem C15_reshape_bijective : forall t s m, np_reshape t s = Some m -> bijective_on m s.
+Proof. exact reshape_bijection. Qed.
+(* U: any transposition of axes along a permutation (also used for transpose_numer/denom) *)
+Theorem C15_transpose_bijective : forall p s, is_perm p (length s) -> bijective_on (np_transpose p s) s.
+Proof. exact transpose_bij. Qed.
+
+(* U: axis arguments: accepted exactly when in range; normalised as Python's a % n *)
+Theorem C15_axis_normalisation : forall n a k, norm_axis n a = Some k ->
+  (- Z.of_nat n <= a < Z.of_nat n)%Z /\ Z.of_nat k = (a mod Z.of_nat n)%Z.
+Proof.
+  intros n a k H. split; [apply (proj1 (norm_axis_spec n a k) H) | apply norm_axis_mod; exact H].
+Qed.
+Theorem C15_swap_axes_legal : forall a b rec q,
+  run_op (OSwapAxes a b rec) q = RErr <->
+  ~ ((- Z.of_nat (length (qlead (qcore q))) <= a < Z.of_nat (length (qlead (qcore q))))%Z /\
+     (- Z.of_nat (length (qlead (qcore q))) <= b < Z.of_nat (length (qlead (qcore q))))%Z).
+Proof. exact swap_axes_legal. Qed.
+(* with the rank= extension: R is the assumed rank *)
+Theorem C15_roll_axis_legal : forall a st rank rec q R,
+  eff_rank (length (qlead (qcore q))) rank = Some R ->
+  (run_op (ORollAxis a st rank rec) q = RErr <->
+   ~ ((- Z.of_nat R <= a < Z.of_nat R)%Z /\ (- Z.of_nat R <= st <= Z.of_nat R)%Z)).
+Proof. exact roll_axis_legal. Qed.
+Theorem C15_move_axis_legal : forall a b rank rec q R,
+  eff_rank (length (qlead (qcore q))) rank = Some R ->
+  (run_op (OMoveAxis [a] [b] rank rec) q = RErr <->
+   ~ ((- Z.of_nat R <= a < Z.of_nat R)%Z /\ (- Z.of_nat R <= b < Z.of_nat R)%Z)).
+Proof. exact move_axis_legal. Qed.
+Theorem C15_rank_too_small : forall o q,
+  match o with
+  | ORollAxis _ _ rank _ | OMoveAxis _ _ rank _ => rank <> 0 /\ rank < length (qlead (qcore q))
+  | _ => False
+  end -> run_op o q = RErr.
+Proof. exact rank_too_small_rejected. Qed.
+
+(* U: without rank= the map used is NumPy's own index map on the leading shape *)
+Theorem C15_numpy_agrees_plain : forall f lead, lead <> [] ->
+  match f lead, with_rank f 0 lead with
+  | None, None => True
+  | Some m, Some m' => im_out m' = im_out m /\ forall i, im_src m' i = im_src m i
+  | _, _ => False
+  end.
+Proof. exact plain_rank_is_numpy. Qed.
+
+(* inverse pairs *)
+(* U *)
+Theorem C15_swap_axes_twice : forall a b s m1 x, qlead x = s -> np_swapaxes a b s = Some m1 ->
+  exists m2, np_swapaxes a b (im_out m1) = Some m2 /\ q0_eq_in (lead_map m2 (lead_map m1 x)) x.
+Proof. exact swap_axes_twice. Qed.
+(* U *)
+Theorem C15_reshape_and_back : forall t s m1 x, qlead x = s -> np_reshape t s = Some m1 ->
+  exists m2, np_reshape (map Z.of_nat s) (im_out m1) = Some m2 /\
+             q0_eq_in (lead_map m2 (lead_map m1 x)) x.
+Proof. exact reshape_and_back. Qed.
+(* U: any two axis permutations with p1[p2[k]] = k undo each other *)
+Theorem C15_permutation_pair : forall p1 p2 s x, qlead x = s ->
+  is_perm p1 (length s) -> is_perm p2 (length s) -> gather p2 p1 = seq 0 (length s) ->
+  q0_eq_in (lead_map (np_transpose p2 (gather p1 s)) (lead_map (np_transpose p1 s) x)) x.
+Proof. exact perm_pair_inverse. Qed.
+(* B in the rank (<= 6), U in axis lengths / items: move_axis(a,b) then move_axis(b,a) *)
+Theorem C15_move_axis_pair_B : forall a b s x, length s <= 6 -> a < length s -> b < length s ->
+  qlead x = s ->
+  np_moveaxis [Z.of_nat a] [Z.of_nat b] s = Some (np_transpose (moveP [a] [b] (length s)) s) /\
+  q0_eq_in (lead_map (np_transpose (moveP [b] [a] (length s)) (gather (moveP [a] [b] (length s)) s))
+                     (lead_map (np_transpose (moveP [a] [b] (length s)) s) x)) x.
+Proof.
+  intros a b s x Hn Ha Hb Hx. split; [apply np_moveaxis_nat; assumption | apply move_axis_pair_B; assumption].
+Qed.
+(* B in the rank (<= 6): roll_axis(k, 0) then roll_axis(0, k+1) *)
+Theorem C15_roll_axis_pair_B : forall k s x, length s <= 6 -> k < length s -> qlead x = s ->
+  np_rollaxis (Z.of_nat k) 0 s = Some (np_transpose (rollP k 0 (length s)) s) /\
+  q0_eq_in (lead_map (np_transpose (rollP 0 k (length s)) (gather (rollP k 0 (length s)) s))
+                     (lead_map (np_transpose (rollP k 0 (length s)) s) x)) x.
+Proof.
+  intros k s x Hn Hk Hx. split; [apply np_rollaxis_front; assumption | apply roll_axis_pair_B; assumption].
+Qed.
+(* U *)
+Theorem C15_transpose_numer_twice : forall a b (x : q0) r n d,
+  a < length (qnumer x) -> b < length (qnumer x) ->
+  length r = length (qlead x) -> length n = length (qnumer x) ->
+  let p := swapP a b (length (qnumer x)) in
+  let m1 := np_transpose p (qnumer x) in
+  let m2 := np_transpose p (im_out m1) in
+  im_out m2 = qnumer x /\
+  qval (numer_map m2 (numer_map m1 x)) (r ++ n ++ d) = qval x (r ++ n ++ d).
+Proof. exact transpose_numer_twice. Qed.
+(* U *)
+Theorem C15_split_after_join : forall a,
+  qnumer (split_map (length (qnumer a)) (join_map a)) = qnumer a /\
+  qdenom (split_map (length (qnumer a)) (join_map a)) = qdenom a /\
+  qlead (split_map (length (qnumer a)) (join_map a)) = qlead a /\
+  (forall i, qval (split_map (length (qnumer a)) (join_map a)) i = qval a i) /\
+  (forall r, qmask (split_map (length (qnumer a)) (join_map a)) r = qmask a r).
+Proof. exact split_after_join. Qed.
+(* U *)
+Theorem C15_swap_items_twice : forall a r n d,
+  length r = length (qlead a) -> length n = length (qnumer a) -> length d = length (qdenom a) ->
+  qval (swap_items_map (swap_items_map a)) (r ++ n ++ d) = qval a (r ++ n ++ d) /\
+  qnumer (swap_items_map (swap_items_map a)) = qnumer a /\
+  qdenom (swap_items_map (swap_items_map a)) = qdenom a /\
+  (forall k, qmask (swap_items_map (swap_items_map a)) k = qmask a k).
+Proof. exact swap_items_twice. Qed.
+(* U: from_scalars of the to_scalars components (same leading shape) gives every element back *)
+Theorem C15_from_to_scalars : forall a n r k d,
+  qnumer a = [n] -> k < n -> length r = length (qlead a) ->
+  qval (fromsc_q0 (qlead a) (map (fun j => numer_map (ix_extract 0 j [n]) a) (seq 0 n)) (qdenom a))
+       (r ++ k :: d) = qval a (r ++ k :: d).
+Proof. exact from_to_scalars. Qed.
+
+(* U: stack / from_scalars / as_diagonal element provenance *)
+Theorem C15_stack_elements : forall s l nu de k i,
+  qval (stack_q0 s l nu de) (k :: i) = qval (nth_q0 k l) i /\
+  qmask (stack_q0 s l nu de) (k :: i) = qmask (nth_q0 k l) i /\
+  qlead (stack_q0 s l nu de) = length l :: s.
+Proof. exact stack_spec. Qed.
+Theorem C15_broadcast_elements : forall s a r j, length r = length s ->
+  qval (bcast_q0 s a) (r ++ j) = qval a (bproj (qlead a) r ++ j) /\
+  qmask (bcast_q0 s a) r = qmask a (bproj (qlead a) r).
+Proof. exact bcast_spec. Qed.
+Theorem C15_from_scalars_elements : forall s l de r k d, length r = length s ->
+  qval (fromsc_q0 s l de) (r ++ k :: d) = qval (nth_q0 k l) (r ++ d) /\
+  qmask (fromsc_q0 s l de) r = existsb (fun a => qmask a r) l.
+Proof. exact fromsc_spec. Qed.
+Theorem C15_as_diagonal_elements : forall a r i j d, length r = length (qlead a) ->
+  qval (diag_map a) (r ++ i :: j :: d) = (if Nat.eqb i j then qval a (r ++ i :: d) else 0%Z) /\
+  qlead (diag_map a) = qlead a /\ (forall k, qmask (diag_map a) k = qmask a k).
+Proof. exact diag_spec. Qed.
+
+(* non-vacuity: concrete instances of the hypotheses and of the maps *)
+Example C15_ex_swap :
+  match np_swapaxes (-1)%Z 0%Z [2; 3; 4] with
+  | Some m => (im_out m, im_src m [3; 1; 0])
+  | None => ([], [])
+  end = ([4; 3; 2], [0; 1; 3]).
+Proof. vm_compute. reflexivity. Qed.
+Example C15_ex_roll_pinned :     (* the pinned tree transposed here: roll_axis(1, 1) on (2,3) *)
+  match np_rollaxis 1%Z 1%Z [2; 3] with Some m => (im_out m, im_src m [1; 2]) | None => ([], []) end
+  = ([2; 3], [1; 2]).
+Proof. vm_compute. reflexivity. Qed.
+Example C15_ex_move :
+  match np_moveaxis [0; 1]%Z [-1; 0]%Z [2; 3; 4] with Some m => im_out m | None => [] end = [3; 4; 2].
+Proof. vm_compute. reflexivity. Qed.
+Example C15_ex_reshape :
+  match np_reshape [-1; 2]%Z [2; 3] with Some m => (im_out m, im_src m [2; 1]) | None => ([], []) end
+  = ([3; 2], [1; 2]).
+Proof. vm_compute. reflexivity. Qed.
+Example C15_ex_rejected :
+  (np_swapaxes 2%Z 0%Z [2; 3], np_moveaxis [2]%Z [0]%Z [2; 3], np_reshape [4]%Z [2; 3],
+   np_reshape []%Z [2; 3], np_broadcast_to [] [3])
+  = (None, None, None, None, None).
+Proof. vm_compute. reflexivity. Qed.
+Example C15_ex_perm : is_perm (moveP [0; 1] [2; 0] 3) 3.
+Proof. apply moveP_perm; [repeat constructor; simpl; intuition discriminate | | reflexivity].
+  intros x [<-|[<-|[]]]; auto. Qed.
+Example C15_ex_eff_rank : eff_rank 2 3 = Some 3 /\ eff_rank 2 0 = Some 2 /\ eff_rank 0 0 = Some 1
+                          /\ eff_rank 3 2 = None.
+Proof. vm_compute. repeat split; reflexivity. Qed.
+Example C15_ex_run :
+  match run_op (OSwapAxes 0%Z 1%Z true)
+               (to_qube (mkI 3 [2; 3] [2] [] (LA [true; false; false; false; false; false]) [(0, [])] false [])) with
+  | ROk [q] => (vals_of (qcore q) (fun _ => false), mask_of (qcore q))
+  | _ => ([], [])
+  end = ([0; 0; 7; 8; 3; 4; 9; 10; 5; 6; 11; 12]%Z, [true; false; false; false; false; false]).
+Proof. vm_compute. reflexivity. Qed.
+
+Print Assumptions C15_lead_one_map.
+Print Assumptions C15_lead_relabel.
+Print Assumptions C15_numer_one_map.
+Print Assumptions C15_numer_relabel.
+Print Assumptions C15_denom_relabel.
+Print Assumptions C15_item_ops_keep_lead.
+Print Assumptions C15_swap_items_relabel.
+Print Assumptions C15_swapaxes_bijective.
+Print Assumptions C15_rollaxis_bijective.
+Print Assumptions C15_moveaxis_bijective.
+Print Assumptions C15_reshape_bijective.
+Print Assumptions C15_transpose_bijective.
+Print Assumptions C15_axis_normalisation.
+Print Assumptions C15_swap_axes_legal.
+Print Assumptions C15_roll_axis_legal.
+Print Assumptions C15_move_axis_legal.
+Print Assumptions C15_rank_too_small.
+Print Assumptions C15_numpy_agrees_plain.
+Print Assumptions C15_swap_axes_twice.
+Print Assumptions C15_reshape_and_back.
+Print Assumptions C15_permutation_pair.
+Print Assumptions C15_move_axis_pair_B.
+Print Assumptions C15_roll_axis_pair_B.
+Print Assumptions C15_transpose_numer_twice.
+Print Assumptions C15_split_after_join.
+Print Assumptions C15_swap_items_twice.
+Print Assumptions C15_from_to_scalars.
+Print Assumptions C15_stack_elements.
+Print Assumptions C15_broadcast_elements.
+Print Assumptions C15_from_scalars_elements.
+Print Assumptions C15_as_diagonal_elements.
